@@ -75,6 +75,47 @@ def arith_programs(cases):
     return progs
 
 
+# ---- string literals: chunk name -> (source text inside the literal, code points it denotes) ----
+CHUNKS = {
+    "a": ("a", [97]), "n": ("n", [110]), "t": ("t", [116]), "zero": ("0", [48]), "space": (" ", [32]),
+    "esc_backslash": ("\\\\", [92]), "esc_n": ("\\n", [10]), "esc_t": ("\\t", [9]), "esc_quote": ("\\\"", [34]),
+    "esc_r": ("\\r", [13]), "backtick": ("`", [96]), "dollar_brace": ("${", [36, 123]), "brace": ("}", [125]),
+}
+
+
+def string_cases(tier):
+    import itertools
+    names = list(CHUNKS)
+    core = ["a", "n", "t", "esc_backslash", "esc_n", "esc_t", "esc_quote", "backtick", "dollar_brace"]
+    cases = [[c] for c in names] + [list(p) for p in itertools.product(core, repeat=2)]
+    cases += [list(p) for p in itertools.product(core if tier != "quick" else ["n", "t", "esc_backslash", "esc_n", "esc_quote", "dollar_brace"], repeat=3)]
+    return cases
+
+
+def string_programs(cases):
+    progs = []
+    for i in range(0, len(cases), 150):
+        cs = cases[i:i + 150]
+        lines = ['    Process.println("' + "".join(CHUNKS[c][0] for c in chunks) + '");' for chunks in cs]
+        text = "class Main {\n  function main(): unit = {\n" + "\n".join(lines) + "\n  }\n}\n"
+        progs.append({"origin": "strings:literals", "entry": "Main", "sources": {"Main": text}, "cases": cs})
+    return progs
+
+
+def string_rows(recs):
+    rows = []
+    for r in recs:
+        if r.get("front") != "accepted":
+            tool_failure(f"string-literal program rejected/crashed: {r.get('errors') or r.get('crash')}")
+        for i, chunks in enumerate(r["cases"]):
+            printed = []
+            for b, v in sorted(r["builds"].items()):
+                for k in ("wasm", "ts"):
+                    printed.append({"build": f"{b}/{k}", "text": line_or_end(v.get(k), i)})
+            rows.append({"chunks": chunks, "printed": printed})
+    return rows
+
+
 def line_or_end(run, i):
     if run is None:
         return "<missing>"
@@ -136,6 +177,24 @@ def run(tier):
         log(v.out[-3000:])
         tool_failure(f"ArithTrace failed: {v.error}")
     known_negdiv(rows)
+    # 2b. string literals over a chunk alphabet (ordinary characters, every escape next to every other chunk,
+    #     backtick, `${`): both back ends must print the value Strings.tla assigns to the literal
+    scases = string_cases(tier)
+    srows = string_rows(pc.run_programs(d, "strings", string_programs(scases), [0, 31]))
+    st = os.path.join(d, "strings-trace.ndjson")
+    write_ndjson(st, srows)
+    write_ndjson(st + ".hdr", [{"denotes": {k: "".join(chr(c) for c in v[1]) for k, v in CHUNKS.items()}}])
+    sv = tlc("Strings", "Strings.cfg", env={"TRACE": st, "TRACE_HDR": st + ".hdr"}, deque=True, tag="c04str", timeout=1500)
+    if sv.violated:
+        l = (sv.last_l() or 2) - 1
+        bad = srows[l - 1]
+        path = save_replay(PID, "string-literal", {"chunks": bad["chunks"], "literal": "".join(CHUNKS[c][0] for c in bad["chunks"])},
+                           {"value_code_points": [c for ch in bad["chunks"] for c in CHUNKS[ch][1]]}, bad["printed"])
+        report_violation(PID, path)
+        fails += 1
+    elif not sv.ok:
+        log(sv.out[-3000:])
+        tool_failure(f"Strings.tla failed: {sv.error}")
     # 3. whole programs
     programs = pc.repo_programs()
     n_gen = 120 if tier == "quick" else 2500
@@ -147,7 +206,7 @@ def run(tier):
     coverage = {
         "programs": len(precs), "disagreements_checked": len(rows) + sum(len(r.get("builds", {})) for r in precs),
         "samples": [rows[0], rows[len(rows) // 2], {"origin": precs[-1]["origin"], "out": (precs[-1].get("builds", {}).get("opt:31", {}).get("wasm", {}) or {}).get("out", [])[:5]}],
-        "arith_table_states": mc.distinct, "arith_cases_replayed": len(rows),
+        "arith_table_states": mc.distinct, "arith_cases_replayed": len(rows), "string_literals_replayed": len(srows),
         "arith_cases_defined": None, "program_census": cen,
         "trace_states_checked_by_tlc": v.generated + stats.get("tlc_states", 0),
     }
